@@ -22,6 +22,9 @@ pub enum XAct {
     Poke,
     /// invalidate the dynamic sum from a child's function, at the next stabilise
     Invalidate,
+    /// arm the observability callback of the dynamic sum: the next time it fires it writes
+    /// child variable `i` (a write made inside stabilise: deferred to its end)
+    HookArm { i: usize, v: i64 },
     // ---- map engine
     /// edit input map `m` (0 = main, 1 = second input of merge)
     MapInsert { m: usize, k: i64, v: i64 },
